@@ -508,10 +508,12 @@ func (b *Builder) ensureRemotePackage(ctx context.Context, pkgAddr sourceaddrs.R
 	// that no other process is concurrently modifying our temporary directory.
 	// Source bundle building should only occur on hosts that are trusted by
 	// whoever will ultimately be using the generated bundle.
-	err = filepath.Walk(workDir, packagePrepareWalkFn(workDir, ignoreRules))
+	var emptied []string
+	err = filepath.Walk(workDir, packagePrepareWalkFn(workDir, ignoreRules, &emptied))
 	if err != nil {
 		return "", fmt.Errorf("failed to prepare package directory: %#w", err)
 	}
+	removeEmptiedDirs(emptied)
 
 	// If we got here then our tmpDir contains the final source code of a valid
 	// module package. We'll compute a hash of its contents so we can notice
@@ -653,7 +655,10 @@ type registryPackageVersion struct {
 	version versions.Version
 }
 
-func packagePrepareWalkFn(root string, ignoreRules *ignorefiles.Ruleset) filepath.WalkFunc {
+// packagePrepareWalkFn returns the function that sanitises a fetched package
+// directory. Excluded directories that are kept for the sake of their
+// descendants are appended to emptied, for removeEmptiedDirs.
+func packagePrepareWalkFn(root string, ignoreRules *ignorefiles.Ruleset, emptied *[]string) filepath.WalkFunc {
 	return func(absPath string, info os.FileInfo, err error) error {
 		if err != nil {
 			return err
@@ -673,6 +678,15 @@ func packagePrepareWalkFn(root string, ignoreRules *ignorefiles.Ruleset) filepat
 			return fmt.Errorf("invalid .terraformignore rules: %#w", err)
 		}
 		if ignored.Excluded {
+			if info.IsDir() {
+				// A rule matching just the directory's own path says nothing about
+				// what is below it, so keep walking: each descendant is judged by
+				// its own path, as when packing a slug. (Removing the directory
+				// here would also make the walk fail on its already-listed
+				// children.) The directory goes away afterwards if it ends up empty.
+				*emptied = append(*emptied, absPath)
+				return nil
+			}
 			err := os.RemoveAll(absPath)
 			if err != nil {
 				return fmt.Errorf("failed to remove ignored file %s: %s", relPath, err)
@@ -742,6 +756,14 @@ func packagePrepareWalkFn(root string, ignoreRules *ignorefiles.Ruleset) filepat
 		}
 
 		return nil
+	}
+}
+
+// removeEmptiedDirs removes those of the given excluded directories that have
+// no content left, deepest first. A directory that still has content stays.
+func removeEmptiedDirs(dirs []string) {
+	for i := len(dirs) - 1; i >= 0; i-- {
+		os.Remove(dirs[i]) // fails, intentionally, if the directory is not empty
 	}
 }
 
